@@ -183,6 +183,23 @@ func (dt DateTime) Less(input Any) (Boolean, error) {
 // Add returns the result of dt + input. Returns an
 // error if input does not represent a valid time valued quantity.
 func (dt DateTime) Add(input Quantity) (DateTime, error) {
+	// like Sub: an amount given in a finer unit than the precision of the value
+	// is converted to whole units of that precision first
+	if dt.l == dtYearLayout {
+		years, err := input.toYears()
+		if err != nil {
+			return DateTime{}, err
+		}
+		return DateTime{dt.dateTime.AddDate(years, 0, 0), dt.l}, nil
+	}
+	if dt.l == dtMonthLayout {
+		months, err := input.toMonths()
+		if err != nil {
+			return DateTime{}, err
+		}
+		return DateTime{dt.dateTime.AddDate(0, months, 0), dt.l}, nil
+	}
+
 	var result time.Time
 	value := int(decimal.Decimal(input.value).IntPart())
 	switch input.unit {
@@ -200,6 +217,7 @@ func (dt DateTime) Add(input Quantity) (DateTime, error) {
 		if err != nil {
 			return DateTime{}, err
 		}
+		duration = roundToDateTimePrecision(dateTimeMap[dt.l], duration)
 		result = dt.dateTime.Add(duration)
 	}
 
